@@ -79,6 +79,18 @@ type TMK struct{ K string }
 func (k TMK) MarshalText() ([]byte, error)  { return []byte("k_" + k.K), nil }
 func (k *TMK) UnmarshalText(b []byte) error { k.K = strings.TrimPrefix(string(b), "k_"); return nil }
 
+// NAny is a named empty interface type; IFace an interface type with a method, IV and *IP implement it
+type NAny interface{}
+type IFace interface{ Tag() string }
+type IV struct{ A int }
+type IP struct {
+	B string
+	C any
+}
+
+func (IV) Tag() string  { return "iv" }
+func (*IP) Tag() string { return "ip" }
+
 var leafTypes = map[string]reflect.Type{
 	"bool": reflect.TypeOf(false), "int": reflect.TypeOf(int(0)), "int8": reflect.TypeOf(int8(0)), "int16": reflect.TypeOf(int16(0)),
 	"int32": reflect.TypeOf(int32(0)), "int64": reflect.TypeOf(int64(0)), "uint": reflect.TypeOf(uint(0)), "uint8": reflect.TypeOf(uint8(0)),
@@ -86,6 +98,7 @@ var leafTypes = map[string]reflect.Type{
 	"float32": reflect.TypeOf(float32(0)), "float64": reflect.TypeOf(float64(0)), "string": reflect.TypeOf(""),
 	"bytes": reflect.TypeOf([]byte(nil)), "number": reflect.TypeOf(stdjson.Number("")), "raw": reflect.TypeOf(stdjson.RawMessage(nil)),
 	"time": reflect.TypeOf(time.Time{}), "any": reflect.TypeOf((*any)(nil)).Elem(),
+	"nany": reflect.TypeOf((*NAny)(nil)).Elem(), "iface": reflect.TypeOf((*IFace)(nil)).Elem(),
 	"M_val": reflect.TypeOf(MVal{}), "M_ptr": reflect.TypeOf(MPtr{}), "TM_val": reflect.TypeOf(TMVal{}), "TM_ptr": reflect.TypeOf(TMPtr{}),
 	"MU_both": reflect.TypeOf(MUBoth{}), "TMK": reflect.TypeOf(TMK{}),
 }
@@ -202,7 +215,12 @@ func leafValues(k string) []any {
 	case "any":
 		x := 7
 		return []any{nil, 1.5, "s<", true, []any{1, "x", nil}, map[string]any{"b": 1, "a": []any{}}, &x, MVal{3}, &MPtr{4}, stdjson.Number("12"), int64(-5), []byte("ab"),
-			map[string]any{"z": map[string]any{"y": "<"}}, struct{ A int }{9}, math.Inf(1)}
+			map[string]any{"z": map[string]any{"y": "<"}}, struct{ A int }{9}, math.Inf(1), (*int)(nil), (*MPtr)(nil)}
+	case "nany":
+		x := 7
+		return []any{nil, 2.5, "n<", false, []any{1, "x", nil}, map[string]any{"b": 1, "a": []any{}}, &x, &MPtr{4}, uint64(1 << 63), NAny("inner"), map[string]NAny{"k": 1}}
+	case "iface":
+		return []any{nil, IV{3}, &IP{"p<", 1.5}, &IP{}, (*IP)(nil)}
 	case "M_val":
 		return []any{MVal{}, MVal{7}}
 	case "M_ptr":
